@@ -27,9 +27,9 @@ def SchemaLinks : Bool := Gen.schema.all fun c => (childSlots c).all fun s => c.
 def SchemaWalk : Bool := Gen.schema.all fun c => (childSlots c).all fun s => c.walked.contains s
 /-- the sample exercised every child slot (otherwise the two above are vacuous for it) -/
 def SchemaExercised : Bool := Gen.schema.all fun c => (childSlots c).all fun s => c.exercised.contains s
-/-- `__eq__` compares every structural slot and nothing else but three per-class constants -/
+/-- `__eq__` compares every structural slot and nothing else but `_abc_impl` (a class constant) and `attributes` (assigned nowhere in the package: stays `None`) -/
 def SchemaEq : Bool := Gen.schema.all fun c => (c.slots.all fun p => c.compared.contains p.1) &&
-  (c.compared.all fun a => (c.slots.map (·.1)).contains a || ["_abc_impl", "attributes", "file_name"].contains a)
+  (c.compared.all fun a => (c.slots.map (·.1)).contains a || ["_abc_impl", "attributes"].contains a)
 /-- no slot held a mixture of nodes and non-nodes -/
 def SchemaNoMixed : Bool := Gen.schema.all fun c => c.slots.all fun p => !(p.2.startsWith "mixed")
 
